@@ -15,6 +15,7 @@
 
 import asyncio
 import socket
+import threading
 
 
 JOB_TIMES = [0.0, 0.05, 0.7, 3.0, 8.0]
@@ -63,6 +64,71 @@ class Job:
                                                                '__name__', repr(func))
 
 
+_tls = threading.local()
+
+
+def gate(kind=None, store=None):
+    '''Called from storage operations: parks the calling helper thread until the scheduler
+    releases it.  A no-op in the event-loop thread.'''
+    job = getattr(_tls, 'job', None)
+    if job is not None:
+        job.park()
+
+
+class GatedJob:
+    '''A job body running in a real helper thread that parks at every gate; the main thread
+    blocks while a helper runs, so exactly one thread runs at any time.'''
+
+    def __init__(self, func, args, fut, seq):
+        self.func, self.args, self.fut, self.seq = func, args, fut, seq
+        self.name = getattr(func, '__name__', None) or getattr(getattr(func, 'func', None),
+                                                               '__name__', repr(func))
+        self.go = threading.Semaphore(0)
+        self.back = threading.Semaphore(0)
+        self.started = False
+        self.done = False
+        self.delivered = False
+        self.result = None
+        self.steps = 0
+        self.thread = threading.Thread(target=self._run, daemon=True)
+
+    def _run(self):
+        _tls.job = self
+        self.go.acquire()
+        try:
+            self.result = ('ok', self.func(*self.args))
+        except BaseException as e:
+            self.result = ('exc', e)
+        self.done = True
+        self.back.release()
+
+    def park(self):
+        self.back.release()
+        self.go.acquire()
+
+    def step(self):
+        '''Run the body up to its next gate (or to completion).  Returns True when done.'''
+        if self.done:
+            return True
+        if not self.started:
+            self.started = True
+            self.thread.start()
+        self.steps += 1
+        self.go.release()
+        self.back.acquire()
+        return self.done
+
+    def deliver(self):
+        if self.done and not self.delivered:
+            self.delivered = True
+            if not self.fut.done():
+                kind, value = self.result
+                if kind == 'ok':
+                    self.fut.set_result(value)
+                else:
+                    self.fut.set_exception(value)
+
+
 class SimLoop(asyncio.SelectorEventLoop):
 
     def __init__(self, chooser=None, max_job_delay=0, vt_deadline=1e5, max_iterations=3_000_000):
@@ -79,6 +145,10 @@ class SimLoop(asyncio.SelectorEventLoop):
         self.max_job_time = 0       # index into JOB_TIMES the chooser may reach
         self.job_time_rule = None   # callable(job) -> (exec delay s, deliver delay s) or None
         self.timed_jobs = []
+        self.gated = False          # gated mode: job bodies run in helper threads, step by step
+        self.gjobs = []
+        self.gate_policy = None     # callable(live gated jobs) -> job to step (or None)
+        self.gate_steps = 0
         self.dns = {}               # host -> list of address strings (fake DNS table)
         self.on_job_run = None      # hook(job) called right before a job body runs
         self.on_iteration = None    # hook() called at the top of each iteration
@@ -95,8 +165,10 @@ class SimLoop(asyncio.SelectorEventLoop):
             self.on_iteration()
         if self.jobs:
             self._step_jobs()
+        if self.gjobs:
+            self._step_gated()
         if not self._ready:
-            if self.jobs:
+            if self.jobs or self.gjobs:
                 self.call_soon(_noop)
             else:
                 when = None
@@ -115,6 +187,11 @@ class SimLoop(asyncio.SelectorEventLoop):
     # ---- jobs ------------------------------------------------------------------------------
     def run_in_executor(self, executor, func, *args):
         fut = self.create_future()
+        if self.gated:
+            job = GatedJob(func, args, fut, self.job_seq)
+            self.job_seq += 1
+            self.gjobs.append(job)
+            return fut
         d = self.max_job_delay + 1
         job = Job(func, args, fut, self.chooser.draw('job_exec', d),
                   self.chooser.draw('job_deliver', d), self.job_seq)
@@ -188,8 +265,39 @@ class SimLoop(asyncio.SelectorEventLoop):
                     else:
                         job.fut.set_exception(value)
 
+    def _step_gated(self):
+        '''One step of one live gated job per loop iteration; finished jobs are delivered in the
+        following iteration.'''
+        for job in list(self.gjobs):
+            if job.done and not job.delivered:
+                job.deliver()
+                self.gjobs.remove(job)
+        live = [j for j in self.gjobs if not j.done]
+        if not live:
+            return
+        job = self.gate_policy(live) if self.gate_policy else live[0]
+        if job is not None:
+            self.gate_steps += 1
+            job.step()
+            self.job_log.append(job.name)
+
+    def drain_gated(self, policy=None):
+        '''Run every outstanding gated job to completion (executor join at exit).'''
+        guard = 0
+        while guard < 1_000_000:
+            live = [j for j in self.gjobs if not j.done]
+            if not live:
+                break
+            job = (policy(live) if policy else None) or live[0]
+            job.step()
+            guard += 1
+        for job in list(self.gjobs):
+            job.deliver()
+        self.gjobs = []
+
     def drain_jobs(self):
         '''Run every outstanding job to completion (executor join at exit).'''
+        self.drain_gated()
         for job in list(self.timed_jobs):
             if job.state == 'new':
                 self._timed_run(job, 0)
